@@ -11,6 +11,7 @@
 // a shadow map of live blocks with fill patterns.
 #include "common/hv.h"
 #include <map>
+#include <climits>
 #include <set>
 #include <memory>
 #include <algorithm>
@@ -348,6 +349,8 @@ struct HeapCase
 static std::unique_ptr<HeapCase> HC;
 
 static size_t &hdr_of(char *p) { return ((size_t *)p)[-1]; }
+// a request that cannot be rounded up to a multiple of __WORDSIZE in a size_t: no block can satisfy it
+static bool unrepresentable(size_t n) { return n % __WORDSIZE && n > SIZE_MAX - (__WORDSIZE - n % __WORDSIZE); }
 
 static void heap_fill(Blk &b)
 {
@@ -859,6 +862,11 @@ static void run_op(const std::vector<std::string> &w, const std::string &, out &
             if (p)
             {
                 Blk b{p, n, 0, hdr_of(p)};
+                if (hdr_of(p) < n)
+                {
+                    o.fail("usable size " + su(hdr_of(p)) + " < request " + su(n));
+                    b.n = hdr_of(p); // keep the shadow map usable
+                }
                 heap_fill(b);
                 HC->live[slot] = b;
                 ret = s(p - HC->start);
@@ -866,9 +874,10 @@ static void run_op(const std::vector<std::string> &w, const std::string &, out &
             else
             {
                 ret = "null";
-                if (!HC->lim) o.fail("malloc returned NULL without a heap limit");
+                if (!HC->lim && !unrepresentable(n)) o.fail("malloc returned NULL without a heap limit");
                 o.tag("malloc-null");
             }
+            if (unrepresentable(n)) o.tag("request-rounding-wraps");
             if (p)
             {
                 size_t fl_after = 0;
@@ -922,6 +931,11 @@ static void run_op(const std::vector<std::string> &w, const std::string &, out &
                 if (p)
                 {
                     Blk b{p, n, 0, hdr_of(p)};
+                    if (hdr_of(p) < n)
+                    {
+                        o.fail("usable size " + su(hdr_of(p)) + " < request " + su(n));
+                        b.n = hdr_of(p);
+                    }
                     heap_fill(b);
                     HC->live[slot] = b;
                     ret = s(p - HC->start);
@@ -929,8 +943,9 @@ static void run_op(const std::vector<std::string> &w, const std::string &, out &
                 else
                 {
                     ret = "null";
-                    if (!HC->lim) o.fail("realloc(NULL, n) returned NULL without a heap limit");
+                    if (!HC->lim && !unrepresentable(n)) o.fail("realloc(NULL, n) returned NULL without a heap limit");
                 }
+                if (unrepresentable(n)) o.tag("request-rounding-wraps");
             }
             else
             {
@@ -949,6 +964,11 @@ static void run_op(const std::vector<std::string> &w, const std::string &, out &
                     std::string why;
                     if (!heap_intact(old, keep, p, why)) o.fail("realloc lost the common prefix at " + why);
                     Blk b{p, n, 0, hdr_of(p)};
+                    if (hdr_of(p) < n)
+                    {
+                        o.fail("usable size " + su(hdr_of(p)) + " < request " + su(n));
+                        b.n = hdr_of(p);
+                    }
                     heap_fill(b);
                     HC->live[slot] = b;
                     ret = s(p - HC->start);
@@ -961,7 +981,8 @@ static void run_op(const std::vector<std::string> &w, const std::string &, out &
                 else
                 {
                     ret = "null";
-                    if (!HC->lim) o.fail("realloc returned NULL without a heap limit");
+                    if (!HC->lim && !unrepresentable(n)) o.fail("realloc returned NULL without a heap limit");
+                    if (unrepresentable(n)) o.tag("request-rounding-wraps");
                     // the old block must still be there, untouched
                     std::string why;
                     if (!heap_intact(old, old.n, old.p, why)) o.fail("failed realloc damaged the old block at " + why);
@@ -1294,6 +1315,42 @@ static void gen_heap_targeted(rng &r, int ncases)
     }
 }
 
+// requests close to SIZE_MAX: rounding the request up to a multiple of __WORDSIZE wraps around
+static void gen_heap_huge(rng &r, int ncases)
+{
+    for (int c = 0; c < ncases; c++)
+    {
+        size_t lim = c % 2 ? (size_t)r.range(300, 3000) : 0;
+        printf("reset heap %zu\n", lim);
+        HGen g(r, 90);
+        auto huge = [&]() -> size_t {
+            unsigned k = (unsigned)r.below(4);
+            if (k == 0) return SIZE_MAX - (size_t)r.below(64);           // rounding wraps (or is exact: SIZE_MAX - 63)
+            if (k == 1) return SIZE_MAX - 63 - (size_t)r.below(130);     // around the first representable size
+            if (k == 2) return SIZE_MAX - (size_t)r.below(3);
+            return (SIZE_MAX / 2 + 1) + (size_t)r.range(-70, 70);
+        };
+        for (int i = 0, n = (int)r.range(0, 4); i < n; i++) g.m(pick_size(r));
+        if (g.live.size() > 1 && r.chance(50)) g.f_at((size_t)r.below(g.live.size() - 1));
+        for (int i = 0, n = (int)r.range(2, 6); i < n; i++)
+        {
+            unsigned k = (unsigned)r.below(3);
+            // when a heap end is configured every huge request must fail; without one only the unrepresentable ones do
+            size_t h = huge();
+            if (!lim) h = SIZE_MAX - (size_t)r.below(63);
+            // realloc computes ptr + len before anything else: keep that sum below 2^64 (the `cp < cp1` test of the
+            // code relies on pointer wrap-around, which UBSan reports; address wrap-around is outside the model)
+            size_t hr = r.chance(50) ? SIZE_MAX - (size_t)r.below(63) : lim ? (SIZE_MAX / 4 + 1) + (size_t)r.range(-70, 70) : h;
+            if (k == 0) printf("m %d %zu\n", 2000 + i, h); // slot stays empty when it fails
+            else if (k == 1 && !g.live.empty()) g.rr((size_t)r.below(g.live.size()), hr);
+            else printf("r %d %zu\n", 3000 + i, h); // realloc(NULL, huge)
+            if (r.chance(50)) g.m(pick_size(r));
+        }
+        for (int i = 0; i < 6; i++) printf("f %d\nf %d\n", 2000 + i, 3000 + i);
+        g.free_all((int)r.below(3));
+    }
+}
+
 // every history of exactly `depth` requests over the size alphabet `al`,
 // followed by the release of whatever is still live (ascending or descending)
 static long gen_heap_exhaustive(const std::vector<size_t> &al, int depth, bool with_realloc, long part, long nparts)
@@ -1614,6 +1671,7 @@ static void gen(rng &r, const std::string &tier)
     gen_heap_random(r, th ? 400 : 60, th ? 300 : 150);
     gen_heap_chains(r, th ? 600 : 120);
     gen_heap_targeted(r, th ? 3000 : 360);
+    gen_heap_huge(r, th ? 200 : 40);
     gen_heap_brim(r, th ? 360 : 72);
     // the release build (NDEBUG): histories with up to 400 live blocks
     gen_heap_random(r, th ? 40 : 8, th ? 1500 : 600, true);
